@@ -47,40 +47,7 @@ def run(ctx):
                     "expected one Commune::new and a derive_ske_key call (found %d / %d)" % (len(cn), len(dk)), at)
 
     # ---- R2 Ciphertext::new vs decrypt ------------------------------------------------------------------
-    engn, retn, stn, frn = ctx.root("sta_rs::Ciphertext::new")
-    engd, retd, std_, frd = ctx.root("sta_rs::Ciphertext::decrypt")
-    at = ctx.fn("sta_rs::Ciphertext::decrypt").loc
-    ib = fidx(ctx, "sta_rs::Ciphertext", "bytes")
-    enc = retn.args[1 + ib] if retn is not None and retn.op == "agg" else None
-    dec = retd
-    def sig(v):
-        """operation-kind signature of every cipher output contained in v, send/recv unified"""
-        out = []
-        for o in Q.find_all(v, lambda t: t.op == "owf" and t.args[0] in ("send_enc", "recv_enc")):
-            ops = Q.flat_ops(Q.trace_of(o.args[1]))
-            out.append(tuple((k.replace("send_", "x_").replace("recv_", "x_"), rep) for k, d, rep in ops))
-        return sorted(set(out))
-    s_e, s_d = sig(enc) if enc is not None else [], sig(dec) if dec is not None else []
-    ctx.add("C01.R2", "sta_rs::Ciphertext::new~decrypt#same-operation-sequence", bool(s_e) and s_e == s_d,
-            "encrypt and decrypt must run the same Strobe operation sequence (send_enc vs recv_enc): %s vs %s" % (s_e, s_d), at,
-            sample={"new": s_e, "decrypt": s_d})
-    def keyed(v):
-        ks = []
-        for o in Q.find_all(v, lambda t: t.op == "owf" and t.args[0] in ("send_enc", "recv_enc")):
-            for k, d, _ in Q.flat_ops(Q.trace_of(o.args[1])):
-                if k in ("new", "key"):
-                    ks.append((k, d))
-        return ks
-    ke, kd = keyed(enc) if enc is not None else [], keyed(dec) if dec is not None else []
-    same_key = bool(ke) and set(ke) == set(kd) and any(k == "key" and Q.params(Q.leaves(d)) == {"enc_key_buf"} for k, d in ke) and \
-        any(k == "new" and Q.params(Q.leaves(d)) == {"label"} for k, d in ke)
-    ctx.add("C01.R2", "sta_rs::Ciphertext#same-label-and-key", same_key,
-            "both directions must start from Strobe::new(label) keyed with the given key", at)
-    okd = enc is not None and dec is not None and "data" in Q.params(Q.leaves(enc)) and ("self.%d" % ib) in Q.params(Q.leaves(dec))
-    ctx.add("C01.R2", "sta_rs::Ciphertext#data", okd, "encrypt must process `data`, decrypt the stored bytes", at)
-    lens_ok = enc is not None and dec is not None
-    ctx.add("C01.R2", "sta_rs::Ciphertext#output-is-cipher-output", lens_ok and Q.contains(enc, lambda t: t.op == "owf") and Q.contains(dec, lambda t: t.op == "owf"),
-            "both directions must return Strobe cipher output", at)
+    payload_cipher_agreement(ctx, "C01.R2")
 
     adss_cipher_agreement(ctx, "C01.R3")
 
@@ -153,6 +120,11 @@ def run(ctx):
         ("sta_rs::derive_ske_key", {"r1", "epoch"}, "A"),
         ("sta_rs::Ciphertext::decrypt", {"self", "enc_key_buf", "label"}, "A"),
     ], 64, skip_kinds=("alloc",))
+    # ---- R9 every supplied share reaches the distinctness filter; every honest report decodes ---------------------
+    complete_share_flow(ctx, "C01.R9")
+    from . import c08
+    c08.message_reader_accepts_honest(ctx, "C01.R9")
+    ctx.floor("C01.R9", 4)
     ctx.floor("C01.R8.ENTRY", 4)
     ctx.floor("C01.R1", 4)
     ctx.floor("C01.R2", 4)
@@ -204,6 +176,80 @@ def adss_cipher_agreement(ctx, rule):
         else:
             ctx.add(rule, "adss#owf", False, "C/D/M/R are not cipher outputs: %s %s %s %s" % (S(Cc, 2), S(Dd, 2), S(Mm, 2), S(Rr, 2)), at)
 
+
+
+def payload_cipher_agreement(ctx, rule):
+    """Ciphertext::new and Ciphertext::decrypt run the same keyed Strobe transcript (shared: C01.R2, C18.R9)"""
+    engn, retn, stn, frn = ctx.root("sta_rs::Ciphertext::new")
+    engd, retd, std_, frd = ctx.root("sta_rs::Ciphertext::decrypt")
+    at = ctx.fn("sta_rs::Ciphertext::decrypt").loc
+    ib = fidx(ctx, "sta_rs::Ciphertext", "bytes")
+    enc = retn.args[1 + ib] if retn is not None and retn.op == "agg" else None
+    dec = retd
+    def sig(v):
+        """operation-kind signature of every cipher output contained in v, send/recv unified"""
+        out = []
+        for o in Q.find_all(v, lambda t: t.op == "owf" and t.args[0] in ("send_enc", "recv_enc")):
+            ops = Q.flat_ops(Q.trace_of(o.args[1]))
+            out.append(tuple((k.replace("send_", "x_").replace("recv_", "x_"), rep) for k, d, rep in ops))
+        return sorted(set(out))
+    s_e, s_d = sig(enc) if enc is not None else [], sig(dec) if dec is not None else []
+    ctx.add(rule, "sta_rs::Ciphertext::new~decrypt#same-operation-sequence", bool(s_e) and s_e == s_d,
+            "encrypt and decrypt must run the same Strobe operation sequence (send_enc vs recv_enc): %s vs %s" % (s_e, s_d), at,
+            sample={"new": s_e, "decrypt": s_d})
+    def keyed(v):
+        ks = []
+        for o in Q.find_all(v, lambda t: t.op == "owf" and t.args[0] in ("send_enc", "recv_enc")):
+            for k, d, _ in Q.flat_ops(Q.trace_of(o.args[1])):
+                if k in ("new", "key"):
+                    ks.append((k, d))
+        return ks
+    ke, kd = keyed(enc) if enc is not None else [], keyed(dec) if dec is not None else []
+    same_key = bool(ke) and set(ke) == set(kd) and any(k == "key" and Q.params(Q.leaves(d)) == {"enc_key_buf"} for k, d in ke) and \
+        any(k == "new" and Q.params(Q.leaves(d)) == {"label"} for k, d in ke)
+    ctx.add(rule, "sta_rs::Ciphertext#same-label-and-key", same_key,
+            "both directions must start from Strobe::new(label) keyed with the given key", at)
+    okd = enc is not None and dec is not None and "data" in Q.params(Q.leaves(enc)) and ("self.%d" % ib) in Q.params(Q.leaves(dec))
+    ctx.add(rule, "sta_rs::Ciphertext#data", okd, "encrypt must process `data`, decrypt the stored bytes", at)
+    lens_ok = enc is not None and dec is not None
+    ctx.add(rule, "sta_rs::Ciphertext#output-is-cipher-output", lens_ok and Q.contains(enc, lambda t: t.op == "owf") and Q.contains(dec, lambda t: t.op == "owf"),
+            "both directions must return Strobe cipher output", at)
+
+
+
+def complete_share_flow(ctx, rule):
+    """share_recover -> adss::recover -> Sharks::recover: the callee's share collection is a complete, element-for-element
+    image of the caller's (no take / skip / filter / sub-slice before x-deduplication), and Sharks::recover's loop
+    traverses its whole argument.  Necessary for `any selection containing t distinct shares, with surplus or repeated
+    reports present`: a truncation before deduplication lets repeats use up the slots."""
+    for root, callee, argi, pname in (("sta_rs::share_recover", "adss::recover", 0, "shares"),
+                                      ("adss::recover", "star_sharks::Sharks::recover", 1, "shares")):
+        eng, ret, st, fr = ctx.root(root)
+        at = ctx.fn(root).loc
+        cs = [e for e in Q.calls(eng, callee) if e["frame"] == fr.key]
+        ok = len(cs) == 1
+        det = "%d call(s) of %s" % (len(cs), callee)
+        if ok:
+            arg = cs[0]["argv"][argi]
+            base = Q.whole_of(arg, eng)
+            ok = base is not None and Q.path_of(base) == pname
+            det = "argument %s traverses %s" % (S(arg, 5), S(base, 2) if base is not None else "only part of its source")
+            at = cs[0]["at"]
+        ctx.add(rule, "%s>%s#passes-every-share" % (root, callee), ok,
+                "every share supplied to %s must be handed on to %s (%s)" % (root, callee, det), at, sample=det)
+    root = "star_sharks::Sharks::recover"
+    eng, ret, st, fr = ctx.root(root)
+    nx = [e for e in Q.calls(eng, "Iterator::next") if e["frame"] == fr.key]
+    ok = False
+    det = "no loop over the shares"
+    for e in nx:
+        it = e["argv"][0]
+        base = Q.whole_of(it, eng)
+        det = "loop iterator %s" % S(it, 4)
+        if base is not None and Q.path_of(base) == "shares":
+            ok = True
+    ctx.add(rule, root + "#loop-visits-every-share", ok and len(nx) == 1,
+            "the deduplication loop must visit every supplied share (%s)" % det, nx[0]["at"] if nx else ctx.fn(root).loc, sample=det)
 
 
 def recover_guards(ctx, rule):
